@@ -7,6 +7,7 @@ import GivaroModel.Model.Poly
 import GivaroModel.Model.PolyInterp
 import GivaroModel.Model.PolyMore
 import GivaroModel.Model.PolyCRT
+import GivaroModel.Model.PolyPadicDirect
 import GivaroModel.Spec.PolySpec
 -- @driver-mode poly Driver.Poly.polyLine
 namespace Driver.Poly
@@ -424,6 +425,21 @@ def polyCase (thr : Nat) (key : String) (a : Array String) (r : Array String) : 
     let p : Nat := FieldIO.card K
     let digs : List Nat := A.map (fun c => (parseHexNat (FieldIO.render c)).getD 0)
     pure { spec := e == (Givaro.Model.Padic.eval p digs : Int) }
+  | "padic_evaldirect" => do
+    let A ← P 0; let e ← r[0]? >>= parseHexInt
+    let p : Nat := FieldIO.card K
+    let digs : List Nat := A.map (fun c => (parseHexNat (FieldIO.render c)).getD 0)
+    if Givaro.Model.Padic.eval p digs ≥ 2 ^ 64 then pure { pre := false, spec := true } else
+    pure { spec := e == (Givaro.Model.Padic.eval p digs : Int), model := e == (Givaro.Model.Padic.evalDirect p digs : Int) }
+  | "padic_radixdirect" => do
+    -- raw storage is the contract here: exactly n digits, not normalised
+    let e ← a[0]? >>= parseHexNat; let n ← N 1; let raw ← (r[0]? >>= parsePoly : Option (List K))
+    let p : Nat := FieldIO.card K
+    if n < 0 || e ≥ 2 ^ 64 then pure { pre := false, spec := true } else
+    let digs : List Nat := raw.map (fun c => (parseHexNat (FieldIO.render c)).getD 0)
+    let m := Givaro.Model.Padic.radixDirect p n.toNat e
+    pure { spec := digs.length == n.toNat && digs.all (fun d => d < p) && Givaro.Model.Padic.eval p digs == e % p ^ n.toNat,
+           model := digs == m, info := toString m }
   | "padic_radixn" => do
     let e ← a[0]? >>= parseHexNat; let n ← N 1; let q ← RP 0
     let p : Nat := FieldIO.card K
